@@ -142,6 +142,9 @@ class _Imports(ast.NodeTransformer):
             elif a.name.startswith("eminus"):
                 out.append(ast.Assign(targets=[ast.Name(id=a.asname or a.name.split(".")[0], ctx=ast.Store())],
                                       value=self._call("__cv_import_module__", a.name)))
+            elif a.name == "numpy":
+                out.append(ast.Assign(targets=[ast.Name(id=a.asname or "numpy", ctx=ast.Store())],
+                                      value=ast.Name(id="__cv_np__", ctx=ast.Load())))
             else:
                 out.append(ast.Import(names=[a]))
         return [ast.copy_location(o, node) for o in out]
@@ -160,7 +163,10 @@ class _Imports(ast.NodeTransformer):
 class Loader:
     """Loads repository modules for one engine / one obligation."""
 
-    def __init__(self, backend, math_shim, Q, stubs=None, native_extra=()):
+    def __init__(self, backend, math_shim, Q, stubs=None, native_extra=(), np_shim=None):
+        import numpy
+
+        self.np_shim = np_shim if np_shim is not None else numpy
         self.backend = backend
         self.math_shim = math_shim
         self.Q = Q
@@ -224,6 +230,7 @@ class Loader:
         mod.__dict__.update(
             __cv_Q__=self.Q,
             __cv_math__=self.math_shim,
+            __cv_np__=self.np_shim,
             __cv_import_module__=self.import_module,
             __cv_import_from__=self.import_from,
         )
